@@ -105,6 +105,7 @@ static void do_op(const char *op)
     else if (!strcmp(op, "unlink")) { char p[700]; path_of(p, sizeof p, "path"); rc = unlink(p); OUT(" rc=%d", rc); }
     else if (!strcmp(op, "ls")) op_ls();
     else if (!strcmp(op, "ledger")) op_ledger();
+    else if (!strcmp(op, "malloc_list")) { fflush(stdout); rc = ncmpi_inq_malloc_list(); fflush(stdout); OUT(" rc=%d", rc); }
     else if (!strcmp(op, "disk_numrecs")) op_disk_numrecs();
     else if (!strcmp(op, "barrier")) { OUT(" rc=0"); }
     else if (!strcmp(op, "env")) {
@@ -161,6 +162,7 @@ int main(int argc, char **argv)
             }
             PMPI_Barrier(MPI_COMM_WORLD);
             shim_case_reset(fr == g_rank ? fn : 0, fc); shim_trace_on = trace_on;
+            ledger_mark();
             OUT("B %d %s\n", g_case, g_casename);
             continue;
         }
